@@ -31,6 +31,7 @@ import (
 
 	"github.com/sarchlab/akita/v4/sim"
 	"github.com/sarchlab/akita/v4/tracing"
+	"github.com/sarchlab/mgpusim/v4/amd/benchmarks/amdappsdk/matrixmultiplication"
 	"github.com/sarchlab/mgpusim/v4/amd/benchmarks/amdappsdk/matrixtranspose"
 	"github.com/sarchlab/mgpusim/v4/amd/benchmarks/heteromark/fir"
 	"github.com/sarchlab/mgpusim/v4/amd/driver"
@@ -566,6 +567,11 @@ func simOnce(wl string, size, rounds int, rest []string, runIdx int) {
 	case "mt":
 		b := matrixtranspose.NewBenchmark(rn.Driver())
 		b.Width = size
+		b.Arch = rn.ArchType
+		rn.AddBenchmark(b)
+	case "mm": // LDS-tiled matrix multiplication, size x size x size
+		b := matrixmultiplication.NewBenchmark(rn.Driver())
+		b.X, b.Y, b.Z = uint32(size), uint32(size), uint32(size)
 		b.Arch = rn.ArchType
 		rn.AddBenchmark(b)
 	case "copy":
